@@ -22,6 +22,8 @@ corpus), not of this file.
 import Reader.Frame
 import Lemmas.Message
 import Lemmas.Frame
+import Lemmas.Bufio
+import Props.C11
 open GoStd Sip Reader Lemmas
 
 namespace Props.C08
@@ -71,6 +73,48 @@ whatever it is. -/
 theorem C08_keeps_serving (cm : List (Bytes × Bytes)) (s : Bytes) (m : Message) (rest : Bytes)
     (h : parseMessage cm s = .ok m rest) : connLoop cm s = m :: connLoop cm rest :=
   connLoop_ok cm s m rest h
+
+/-! ### the same bounds for the OPERATIONAL reader (Reader/Bufio.lean), whatever the segmentation
+
+The bounds above are about the logical stream. The three below are about the state machine that
+really holds the memory: a `bufio.Reader` of capacity `N` on a connection that delivers the stream
+in arbitrary Reads (`Props.C11.bufioLoop`, tied to the real reader by the `frame blines/bparse`
+ops). -/
+
+/-- total memory held by the messages the real loop extracts is bounded by the bytes received,
+for every segmentation and every buffer size -/
+theorem C08_bufio_stream_bounded (N : Nat) (hN : 2 ≤ N) (cm : List (Bytes × Bytes)) (segs : List Bytes) :
+    2 * (Props.C11.bufioLoop N cm segs).length
+      + ((Props.C11.bufioLoop N cm segs).map (fun m => m.headers.length + m.body.length)).sum
+      ≤ segs.flatten.length := by
+  rw [Props.C11.C11_bufio_refines N hN]
+  exact C08_stream_bounded cm segs.flatten
+
+/-- the reader itself never buffers more than its capacity: after every `ParseMessage`, successful
+on whatever input, the unread part of its buffer fits `N` (an over-long line is handed on fragment
+by fragment, it is never accumulated inside the reader) -/
+theorem C08_bufio_buffer_bounded (N : Nat) (hN : 2 ≤ N) (cm : List (Bytes × Bytes)) (b : Bufio.BR)
+    (hb : b.buf.length ≤ N) (m : Message) (b' : Bufio.BR)
+    (h : Bufio.parseMessage N cm b = some (m, b')) : b'.buf.length ≤ N :=
+  (Lemmas.Bufio.parseMessage_spec N hN cm b hb).2 (m, b') (by simp [h])
+
+/-- a line that `readLine` has joined from fragments is never longer than the bytes the reader
+consumed for it: the join loop cannot be made to grow a line out of proportion to the input -/
+theorem C08_bufio_line_bounded (N : Nat) (hN : 2 ≤ N) (b : Bufio.BR) (hb : b.buf.length ≤ N)
+    (hlf : (10 : UInt8) ∈ b.logical) (line : Bytes) (b' : Bufio.BR)
+    (h : Bufio.readLine N b = some (line, b')) :
+    line.length + b'.logical.length ≤ b.logical.length ∧ b'.logical.length < b.logical.length := by
+  obtain ⟨l, b2, hr, hfl, _⟩ := Lemmas.Bufio.readLine_lf N hN b hb hlf
+  rw [h] at hr
+  simp only [Option.some.injEq, Prod.mk.injEq] at hr
+  obtain ⟨rfl, rfl⟩ := hr
+  exact readLine_length _ _ _ hfl
+
+/-- undecodable input ends the real loop as well: nothing is emitted for it -/
+theorem C08_bufio_undecodable_closes (N : Nat) (hN : 2 ≤ N) (cm : List (Bytes × Bytes)) (segs : List Bytes)
+    (h : parseMessage cm segs.flatten = .error) : Props.C11.bufioLoop N cm segs = [] := by
+  rw [Props.C11.C11_bufio_refines N hN]
+  exact C08_undecodable_closes cm _ h
 
 -- UDP: `udpParse` is a pure function of one datagram (no state is threaded from one datagram to
 -- the next in the model), so a discarded datagram cannot affect the decoding of any other; the
